@@ -103,11 +103,14 @@ pub fn stores() -> Vec<(&'static str, Vec<Utxo>)> {
         });
         odd.push(u);
     }
+    // outputs of one transaction: the same txid under several indices (one beyond 16 bits)
+    let sibling = |ix: u32| tirb::utxo(UtxoRef { txid: vec![0x62; 32], index: ix }, &a, CanonicalAssets::from_naked_amount(40_000_000));
     vec![
         ("ample", vec![sample_utxo(0x51), sample_utxo(0x52), big(90_000_000)]),
         ("empty", vec![]),
         ("odd-utxos", odd),
         ("extreme-amounts", vec![big(i128::MAX), big(0), big(-5)]),
+        ("siblings", vec![sibling(2), sibling(0), sibling(70_000), sibling(1)]),
     ]
 }
 
@@ -145,9 +148,12 @@ pub fn drive(tx: &tir::Tx, args: &ArgMap, store_utxos: &[Utxo], pp: &PP, o: &mut
     // 2. the stages one by one, continuing past errors where a value is still at hand
     crate::engine::set_phase("stages");
     let mut comp = compiler(pp);
+    // the k-th query is handed two UTxOs starting at the k-th of the store (wrapping): blocks overlap in one UTxO and
+    // differ in the other
     let inputs: BTreeMap<String, std::collections::HashSet<Utxo>> = find_queries(tx)
         .keys()
-        .map(|k| (k.clone(), store_utxos.iter().take(2).cloned().collect()))
+        .enumerate()
+        .map(|(k, name)| (name.clone(), store_utxos.iter().cycle().skip(k).take(2.min(store_utxos.len())).cloned().collect()))
         .collect();
     let mut cur = tx.clone();
     macro_rules! stage {
@@ -291,7 +297,7 @@ impl Prop for C14 {
     fn rule(&self, tier: Tier) -> String {
         format!(
             "IR level: every tirgen tree ({} contexts{} x 5 probes x {} placements) x every value of the probe's boundary alphabet (37 integers, byte / \
-             address lengths {}, utxo-ref txid lengths, 9 wrong-typed values) x 4 stores x 6 protocol-parameter sets (full product of alphabet with the \
+             address lengths {}, utxo-ref txid lengths, 9 wrong-typed values) x 5 stores (one of sibling outputs of one transaction; the k-th query gets two UTxOs starting at the k-th) x 6 protocol-parameter sets (full product of alphabet with the \
              default store/pparams; stores x pparams with the default value). Constants of every kind and of sizes around 28 / 29 / 32 / 57 bytes in each of the 19 fields and in every key of every chain-specific directive; two-level trees whose outer context computes with its operand. Language level: every tx of the corpus x every parameter x its boundary \
              alphabet (one non-default argument at a time{}) x stores x pparams. Each combination is driven through resolve_tx and through \
              apply_args / apply_fees / reduce / compiler ops / apply_inputs / reduce / compile (continuing after errors) and a second round of compiler ops / compile on the same instance; every template also with its outputs removed and with every output optional and empty. Oracle: every call returns \
